@@ -423,6 +423,13 @@ static void vp_merge_func(void *clos, const uint8_t *key, size_t len_key,
 	(void) key; (void) len_key;
 	c->calls++;
 	if (c->fail_at > 0 && c->calls == c->fail_at) return;
+	if (c->kind == 3 || c->kind == 4) {	/* kind 3 / 4: the larger / smaller of the two values by (length, bytes): the result is one of the operands */
+		int cmp = (len_val0 != len_val1) ? (len_val0 < len_val1 ? -1 : 1) : bytes_compare(val0, len_val0, val1, len_val1);
+		int take0 = (c->kind == 3) ? (cmp >= 0) : (cmp <= 0);
+		const uint8_t *v = take0 ? val0 : val1; size_t l = take0 ? len_val0 : len_val1;
+		*len_merged_val = l; *merged_val = malloc(l + 1); memcpy(*merged_val, v, l);
+		return;
+	}
 	if (c->kind == 2) {	/* kind 2: plain concatenation - the merged value of two empty values is empty (a non-NULL buffer of length 0) */
 		*len_merged_val = len_val0 + len_val1;
 		*merged_val = malloc(*len_merged_val + 1);
